@@ -2118,6 +2118,27 @@ class Interp:
                 return Val(kind="dict", mapping=mapping if ok else None, elem=el, dim=D0,
                            deps=el.deps if el is not None else frozenset(), born=self.time)
 
+        if len(n.generators) == 1 and not n.generators[0].ifs and not n.generators[0].is_async:
+            # {k: f(k) for k in <sequence of known constants>}: entry by entry (the key set is exact)
+            it0 = self.ev(n.generators[0].iter, st)
+            if it0.kind in ("list", "tuple") and it0.items is not None and len(it0.items) <= 24 and not it0.al \
+                    and all(i_ is not None and i_.has_const() for i_ in it0.items):
+                saved = dict(st.env)
+                mapping, ok, el = {}, True, None
+                for i_ in it0.items:
+                    self.assign(n.generators[0].target, i_, st, n)
+                    kv = self.ev(n.key, st)
+                    vv = self.ev(n.value, st)
+                    el = join_vals(el, vv)
+                    if kv.has_const() and isinstance(kv.const, (str, int)):
+                        mapping[kv.const] = vv
+                    else:
+                        ok = False
+                st.env.clear()
+                st.env.update(saved)
+                return Val(kind="dict", mapping=mapping if ok else None, elem=el, dim=D0,
+                           deps=el.deps if el is not None else frozenset(), born=self.time)
+
         def f():
             self.ev(n.key, st)
             return self.ev(n.value, st)
